@@ -181,6 +181,21 @@ def judge(case, m):
                 m.violation("proportion-columns", f"{formula}: response {X.shape} is not (successes, trials)", case=c, key="proportion")
             elif R.kind != "proportion":
                 m.violation("proportion-columns", f"{formula}: kind {R.kind!r}", case=c, key="proportion-kind")
+    # a right-hand side without any term: the response is still there
+    for empty in ("0", "-1", "1 - 1", "0 + 0"):
+        for text, kind, want in (("y", "numeric", df["y"].to_numpy(dtype=float)), ("yb", "categoric", None), ("prop(succ, tr)", "proportion", None)):
+            m.ev("single-term-response")
+            formula = f"{text} ~ {empty}"
+            try:
+                dm = formulae.design_matrices(formula, df, extra_namespace=ns)
+            except Exception as e:
+                m.note("empty-rhs-raised:" + type(e).__name__)
+                continue
+            if dm.response is None or np.asarray(dm.response.design_matrix).shape[0] != n:
+                m.violation("single-term-response", f"'{formula}': the response is missing although it is named", case={**case, "text": formula},
+                            key="response-missing-empty-rhs")
+            elif kind == "numeric" and not np.allclose(np.asarray(dm.response.design_matrix, dtype=float).reshape(n), want):
+                m.violation("numeric-unchanged", f"'{formula}': response values changed", case={**case, "text": formula}, key="numeric")
     # refused forms
     for lhs in ("x:z", "x + z", "x*z", "(x | g)", "1", "0", "s:h"):
         m.ev("single-term-response")
